@@ -37,7 +37,7 @@ func hashCheckers(p *core.Prog) []*ssa.Function {
 func c13(c *Ctx) {
 	p, r := c.P, c.R
 	r.Technique = "must-pass-through (cut) checks of the hash-link gate chain inside the proof walker (per loop iteration) and of the final gates in the node/bytecode validators; provenance of the root (oracle header for the content's block hash) and of what reaches the store; structural check that each traversal case consumes the nibbles it compared"
-	r.Explanation = "Decides: (R1) the hash comparer returns nil only under bytes.Equal(node hash, expected); the proof walker succeeds only for a non-empty proof whose first node passed the comparer against the root argument, and in every loop iteration the carried node is replaced by the next proof element only after decoding the carried node, traversing it with the carried remaining path and the comparer succeeding on (next element, reference returned by that traversal); the carried path becomes exactly the traversal's remainder; the walk succeeds only after the loop ran out of proof elements (no early exit to a success return, so surplus nodes are decoded and linked too); (R2) the trie-node validator returns nil only under len(remaining) == 0 and the comparer succeeding on (last node, key's node hash), with the walker applied to (root, key path, content proof); the bytecode validator only under account code hash == key code hash for the account proven by the walker under the key's address hash; every root argument derives from the oracle's header for the content's own block hash (header binding is C02.R3) and the storage-trie root from the proven account; oracle and decode errors stop validation; unknown selectors fail; (R3) the state store writes only the last proof element (re-hashed and compared with the key's node hash) or the code (hashed and compared with the key's code hash), nothing else from the proof; (R4) traversal: the branch case indexes with path[0] and continues with path[1:], the extension case compares every key nibble with the path and continues with path[len(key):], the leaf case requires the remaining path to equal the key prefix. Not decided: soundness over all tries; panics on malformed nodes are C01's."
+	r.Explanation = "Decides: (R1) the hash comparer returns nil only under bytes.Equal(node hash, expected); the proof walker succeeds only for a non-empty proof whose first node passed the comparer against the root argument, and in every loop iteration the carried node is replaced by the next proof element only after decoding the carried node, traversing it with the carried remaining path and the comparer succeeding on (next element, reference returned by that traversal); the carried path becomes exactly the traversal's remainder; the walk succeeds only after the loop ran out of proof elements (no early exit to a success return, so surplus nodes are decoded and linked too); (R2) the trie-node validator returns nil only under len(remaining) == 0 and the comparer succeeding on (last node, key's node hash), with the walker applied to (root, key path, content proof); the bytecode validator only under account code hash == key code hash for the account proven by the walker under the key's address hash; every root argument derives from the oracle's header for the content's own block hash (header binding is C02.R3) and the storage-trie root from the proven account; oracle and decode errors stop validation; unknown selectors fail; (R3) the state store writes only the last proof element (re-hashed and compared with the key's node hash) or the code (hashed and compared with the key's code hash), nothing else from the proof; (R4) traversal: the branch case indexes with path[0] and continues with path[1:], the extension case compares every key nibble with the path and continues with path[len(key):], the leaf case requires the remaining path to equal the key prefix and hands the path back unconsumed (what the walker's progress test relies on to tell a leaf's value from a child reference). Not decided: soundness over all tries; panics on malformed nodes are C01's."
 	r.Assumptions = []string{"keccak256 collision resistance", "trie node decoding (go-ethereum derived) is faithful"}
 	r.Floor("R1.hash-link", 8)
 	r.Floor("R2.final-gates", 9)
@@ -813,6 +813,11 @@ func c13(c *Ctx) {
 			n++
 			w := core.InstrGuarded(ret, g, nil)
 			r.Check(w == nil, "R4.traversal", tn+" leaf-prefix", p.Pos(core.InstrPos(ret)), "a leaf's value is returned only when the remaining path equals the leaf's key prefix", "a leaf can be accepted on a path that differs from its key: "+p.PathString(w))
+			// a leaf hands the path back unconsumed: that is what lets the walker tell a leaf's value
+			// from a child reference (its guard is "the traversal consumed part of the path")
+			if len(ret.Results) > 1 {
+				r.Check(ret.Results[1] == ssa.Value(pathT), "R4.traversal", tn+" leaf-consumes-nothing", p.Pos(core.InstrPos(ret)), "the leaf case returns the path it was given as the remainder", "the leaf case reports part of the path as consumed: the walker's test that the traversal made progress no longer tells a leaf's value from a child reference, and a proof can continue below a leaf (a 31-byte storage value is 32 bytes long like a hash)")
+			}
 		}
 		if n == 0 {
 			r.Note("R4.traversal", tn+" leaf-return", p.Pos(T.Pos()), "leaf value return not recognised (shape changed)")
